@@ -134,11 +134,12 @@ fn hint_ok(h: (usize, Option<usize>), n: usize) -> bool {
 
 /// Compositions for iterators that are DoubleEnded + ExactSize (applied identically to the
 /// iterator under test and to `Vec::into_iter` as the reference).
-pub fn adapt_full<I>(it: I, comp: Comp, a: usize, b: usize) -> AdaptOut
+pub fn adapt_full<I, T, C>(it: I, cv: C, comp: Comp, a: usize, b: usize) -> AdaptOut
 where
-    I: DoubleEndedIterator<Item = Elem> + ExactSizeIterator,
+    I: DoubleEndedIterator<Item = T> + ExactSizeIterator,
+    C: Fn(T) -> Elem + Copy,
 {
-    let plain = |x: Elem| (-1i64, x);
+    let plain = |x: T| (-1i64, cv(x));
     macro_rules! fin {
         ($it:expr, $f:expr) => {{
             let it = $it;
@@ -151,34 +152,35 @@ where
         Comp::Take => fin!(it.take(a), plain),
         Comp::Skip => fin!(it.skip(a), plain),
         Comp::StepBy => fin!(it.step_by(a.max(1)), plain),
-        Comp::Zip => fin!(it.zip(0..b), |(x, i)| (i as i64, x)),
+        Comp::Zip => fin!(it.zip(0..b), |(x, i)| (i as i64, cv(x))),
         Comp::Peekable => {
             let mut p = it.peekable();
-            let first = p.peek().copied();
+            let first = p.peek().is_some();
             let len = p.len();
             let hint = p.size_hint();
             let mut seq: Vec<(i64, Elem)> = p.map(plain).collect();
-            if let Some(f) = first {
-                seq.push((-2, f));
+            if first {
+                seq.push((-2, (0, 0, 0)));
             }
             AdaptOut { len: Some(len), hint, seq }
         }
-        Comp::Enumerate => fin!(it.enumerate(), |(i, x)| (i as i64, x)),
-        Comp::Map => fin!(it.map(|x| (x.0, x.1, x.2.wrapping_add(1))), plain),
+        Comp::Enumerate => fin!(it.enumerate(), |(i, x)| (i as i64, cv(x))),
+        Comp::Map => fin!(it.map(|x| { let e = cv(x); (e.0, e.1, e.2.wrapping_add(1)) }), |e| (-1i64, e)),
         Comp::Rev => fin!(it.rev(), plain),
         Comp::SkipTake => fin!(it.skip(a).take(b), plain),
         Comp::RevTake => fin!(it.rev().take(a), plain),
-        Comp::EnumerateRev => fin!(it.enumerate().rev(), |(i, x)| (i as i64, x)),
-        Comp::ZipRev => fin!(it.zip(0..b).rev(), |(x, i)| (i as i64, x)),
+        Comp::EnumerateRev => fin!(it.enumerate().rev(), |(i, x)| (i as i64, cv(x))),
+        Comp::ZipRev => fin!(it.zip(0..b).rev(), |(x, i)| (i as i64, cv(x))),
         Comp::SkipRev => fin!(it.skip(a).rev(), plain),
         Comp::Chain => {
-            let c = it.chain(std::iter::once((u32::MAX, 0, 0)));
+            let c = it.map(cv).chain(std::iter::once((u32::MAX, 0, 0)));
             let hint = c.size_hint();
-            AdaptOut { len: None, hint, seq: c.map(plain).collect() }
+            AdaptOut { len: None, hint, seq: c.map(|e| (-1i64, e)).collect() }
         }
         Comp::Rposition => {
             let mut it = it;
             let want = a as u32;
+            let mut it = it.map(cv);
             let r = it.rposition(|x| x.0 % 4 == want % 4);
             AdaptOut { len: None, hint: (0, None), seq: vec![(r.map_or(-1, |x| x as i64), (0, 0, 0))] }
         }
@@ -194,7 +196,7 @@ where
             let x = it.nth(a);
             let len = it.len();
             let hint = it.size_hint();
-            let mut seq: Vec<(i64, Elem)> = x.map(|e| (-3, e)).into_iter().collect();
+            let mut seq: Vec<(i64, Elem)> = x.map(|e| (-3, cv(e))).into_iter().collect();
             seq.extend(it.map(plain));
             AdaptOut { len: Some(len), hint, seq }
         }
@@ -203,7 +205,7 @@ where
             let x = it.nth_back(a);
             let len = it.len();
             let hint = it.size_hint();
-            let mut seq: Vec<(i64, Elem)> = x.map(|e| (-3, e)).into_iter().collect();
+            let mut seq: Vec<(i64, Elem)> = x.map(|e| (-3, cv(e))).into_iter().collect();
             seq.extend(it.map(plain));
             AdaptOut { len: Some(len), hint, seq }
         }
@@ -214,20 +216,20 @@ where
         }
         Comp::Fold => {
             let hint = it.size_hint();
-            let s = it.fold(0i64, |acc, x| acc.wrapping_mul(31).wrapping_add(x.0 as i64));
+            let s = it.fold(0i64, |acc, x| acc.wrapping_mul(31).wrapping_add(cv(x).0 as i64));
             AdaptOut { len: None, hint, seq: vec![(s, (0, 0, 0))] }
         }
         Comp::CollectVec => {
             let hint = it.size_hint();
-            let v: Vec<Elem> = it.collect();
-            AdaptOut { len: Some(v.len()), hint, seq: v.into_iter().map(plain).collect() }
+            let v: Vec<Elem> = it.map(cv).collect();
+            AdaptOut { len: Some(v.len()), hint, seq: v.into_iter().map(|e| (-1i64, e)).collect() }
         }
     }
 }
 
 /// Compositions available on a plain Iterator (the PriorityQueue sorted iterator).
-pub fn adapt_plain<I: Iterator<Item = Elem>>(it: I, comp: Comp, a: usize, b: usize) -> Option<AdaptOut> {
-    let plain = |x: Elem| (-1i64, x);
+pub fn adapt_plain<I: Iterator<Item = T>, T, C: Fn(T) -> Elem + Copy>(it: I, cv: C, comp: Comp, a: usize, b: usize) -> Option<AdaptOut> {
+    let plain = |x: T| (-1i64, cv(x));
     macro_rules! fin {
         ($it:expr, $f:expr) => {{
             let it = $it;
@@ -239,11 +241,11 @@ pub fn adapt_plain<I: Iterator<Item = Elem>>(it: I, comp: Comp, a: usize, b: usi
         Comp::Take => fin!(it.take(a), plain),
         Comp::Skip => fin!(it.skip(a), plain),
         Comp::StepBy => fin!(it.step_by(a.max(1)), plain),
-        Comp::Zip => fin!(it.zip(0..b), |(x, i)| (i as i64, x)),
-        Comp::Enumerate => fin!(it.enumerate(), |(i, x)| (i as i64, x)),
-        Comp::Map => fin!(it.map(|x| (x.0, x.1, x.2.wrapping_add(1))), plain),
+        Comp::Zip => fin!(it.zip(0..b), |(x, i)| (i as i64, cv(x))),
+        Comp::Enumerate => fin!(it.enumerate(), |(i, x)| (i as i64, cv(x))),
+        Comp::Map => fin!(it.map(|x| { let e = cv(x); (e.0, e.1, e.2.wrapping_add(1)) }), |e| (-1i64, e)),
         Comp::SkipTake => fin!(it.skip(a).take(b), plain),
-        Comp::Chain => fin!(it.chain(std::iter::once((u32::MAX, 0, 0))), plain),
+        Comp::Chain => fin!(it.map(cv).chain(std::iter::once((u32::MAX, 0, 0))), |e| (-1i64, e)),
         Comp::Last => {
             let hint = it.size_hint();
             Some(AdaptOut { len: None, hint, seq: it.last().map(plain).into_iter().collect() })
@@ -252,7 +254,7 @@ pub fn adapt_plain<I: Iterator<Item = Elem>>(it: I, comp: Comp, a: usize, b: usi
             let mut it = it;
             let x = it.nth(a);
             let hint = it.size_hint();
-            let mut seq: Vec<(i64, Elem)> = x.map(|e| (-3, e)).into_iter().collect();
+            let mut seq: Vec<(i64, Elem)> = x.map(|e| (-3, cv(e))).into_iter().collect();
             seq.extend(it.map(plain));
             Some(AdaptOut { len: None, hint, seq })
         }
@@ -263,13 +265,13 @@ pub fn adapt_plain<I: Iterator<Item = Elem>>(it: I, comp: Comp, a: usize, b: usi
         }
         Comp::Fold => {
             let hint = it.size_hint();
-            let s = it.fold(0i64, |acc, x| acc.wrapping_mul(31).wrapping_add(x.0 as i64));
+            let s = it.fold(0i64, |acc, x| acc.wrapping_mul(31).wrapping_add(cv(x).0 as i64));
             Some(AdaptOut { len: None, hint, seq: vec![(s, (0, 0, 0))] })
         }
         Comp::CollectVec => {
             let hint = it.size_hint();
-            let v: Vec<Elem> = it.collect();
-            Some(AdaptOut { len: None, hint, seq: v.into_iter().map(plain).collect() })
+            let v: Vec<Elem> = it.map(cv).collect();
+            Some(AdaptOut { len: None, hint, seq: v.into_iter().map(|e| (-1i64, e)).collect() })
         }
         _ => None,
     }
@@ -560,7 +562,7 @@ impl<'c, Q: Queue> Interp<'c, Q> {
         // the reference sequence: the iterator's own order, collected by plain `next` calls
         let (got, reference): (Option<AdaptOut>, Vec<Elem>) = match which {
             ItKind::Iter => (
-                Some(adapt_full(self.q.iter().map(byref), comp, a, b)),
+                Some(adapt_full(self.q.iter(), byref, comp, a, b)),
                 {
                     let mut v = Vec::new();
                     let mut it = self.q.iter();
@@ -571,7 +573,7 @@ impl<'c, Q: Queue> Interp<'c, Q> {
                 },
             ),
             ItKind::RefIntoIter => (
-                Some(adapt_full(self.q.ref_into_iter().map(byref), comp, a, b)),
+                Some(adapt_full(self.q.ref_into_iter(), byref, comp, a, b)),
                 {
                     let mut v = Vec::new();
                     let mut it = self.q.ref_into_iter();
@@ -582,7 +584,7 @@ impl<'c, Q: Queue> Interp<'c, Q> {
                 },
             ),
             ItKind::IntoIter => (
-                Some(adapt_full(self.q.clone().into_iter_owned().map(elem_owned), comp, a, b)),
+                Some(adapt_full(self.q.clone().into_iter_owned(), elem_owned, comp, a, b)),
                 {
                     let mut v = Vec::new();
                     let mut it = self.q.clone().into_iter_owned();
@@ -593,7 +595,7 @@ impl<'c, Q: Queue> Interp<'c, Q> {
                 },
             ),
             ItKind::Drain => (
-                Some(adapt_full(self.q.clone().drain().map(elem_owned), comp, a, b)),
+                Some(adapt_full(self.q.clone().drain(), elem_owned, comp, a, b)),
                 {
                     let mut v = Vec::new();
                     let mut c = self.q.clone();
@@ -610,7 +612,7 @@ impl<'c, Q: Queue> Interp<'c, Q> {
                 while let Some(x) = it.next() {
                     v.push(elem_owned(x));
                 }
-                (self.sorted_adapt(comp, a, b), v)
+                (self.q.clone().sorted_adapt(comp, a, b), v)
             }
         };
         let Some(got) = got else { return };
@@ -619,9 +621,9 @@ impl<'c, Q: Queue> Interp<'c, Q> {
             return;
         }
         let want = if which == ItKind::Sorted && !Q::DOUBLE {
-            adapt_plain(reference.into_iter(), comp, a, b).unwrap()
+            adapt_plain(reference.into_iter(), |e| e, comp, a, b).unwrap()
         } else {
-            adapt_full(reference.into_iter(), comp, a, b)
+            adapt_full(reference.into_iter(), |e| e, comp, a, b)
         };
         let (got, want) = if which == ItKind::Sorted {
             // with ties the element chosen from the back need not mirror the one chosen from the
@@ -664,16 +666,6 @@ impl<'c, Q: Queue> Interp<'c, Q> {
         self.stats.hit("adaptor_run");
         if n >= 2 && want.len.map_or(true, |l| l != n) {
             self.stats.hit("adaptor_answer_differs_from_n");
-        }
-    }
-
-    fn sorted_adapt(&self, comp: Comp, a: usize, b: usize) -> Option<AdaptOut> {
-        let c = self.q.clone().into_sorted_iter();
-        if Q::DOUBLE {
-            // DoubleEnded + ExactSize: drive through the trait hooks by materialising an adapter
-            Some(adapt_full(SortedFull::<Q> { it: c }, comp, a, b))
-        } else {
-            adapt_plain(c.map(elem_owned), comp, a, b)
         }
     }
 
@@ -781,28 +773,3 @@ fn expected_count(want: &AdaptOut, comp: Comp) -> usize {
     }
 }
 
-/// Wraps the DPQ sorted iterator so that generic adaptor code can use it as
-/// DoubleEndedIterator + ExactSizeIterator; len() and size_hint() forward to the real iterator.
-pub struct SortedFull<Q: Queue> {
-    it: Q::Sorted,
-}
-impl<Q: Queue> Iterator for SortedFull<Q> {
-    type Item = Elem;
-    fn next(&mut self) -> Option<Elem> {
-        self.it.next().map(elem_owned)
-    }
-    fn size_hint(&self) -> (usize, Option<usize>) {
-        self.it.size_hint()
-    }
-}
-impl<Q: Queue> DoubleEndedIterator for SortedFull<Q> {
-    fn next_back(&mut self) -> Option<Elem> {
-        Q::sorted_back(&mut self.it).flatten().map(elem_owned)
-    }
-}
-impl<Q: Queue> ExactSizeIterator for SortedFull<Q> {
-    fn len(&self) -> usize {
-        let (lo, _) = self.it.size_hint();
-        Q::sorted_len(&self.it).0.unwrap_or(lo)
-    }
-}
